@@ -408,21 +408,21 @@ pub fn domains(thorough: bool, conditioned: bool) -> Vec<Domain> {
     match (thorough, conditioned) {
         (false, false) => vec![
             Domain { name: "one-member", members: 1, mcs: vec![1, 2, 3], acs: vec![0, 1, 2], accesses: lv(&[0, 1, 2, 3]), triples: true },
-            Domain { name: "two-members", members: 2, mcs: vec![1, 2], acs: vec![0, 1], accesses: lv(&[1, 3]), triples: true },
+            Domain { name: "two-members", members: 2, mcs: vec![1, 2], acs: vec![0, 1], accesses: lv(&[0, 1, 3]), triples: true },
         ],
         (false, true) => vec![
             Domain { name: "one-member", members: 1, mcs: vec![1, 2, 3], acs: vec![0, 1], accesses: with_conds(&[0, 1, 2, 3], &[0, 1, 2]), triples: true },
-            Domain { name: "two-members", members: 2, mcs: vec![1], acs: vec![0, 1], accesses: vec![(1, 1), (1, 2), (2, 1), (2, 0)], triples: true },
+            Domain { name: "two-members", members: 2, mcs: vec![1], acs: vec![0, 1], accesses: vec![(1, 0), (1, 1), (1, 2), (2, 1), (2, 0)], triples: true },
             Domain { name: "two-members-pairs", members: 2, mcs: vec![1, 2], acs: vec![0, 1], accesses: with_conds(&[1, 2, 3], &[0, 1, 2]), triples: false },
         ],
         (true, false) => vec![
             Domain { name: "one-member", members: 1, mcs: vec![0, 1, 2, 3], acs: vec![0, 1, 2, 3], accesses: lv(&[0, 1, 2, 3]), triples: true },
-            Domain { name: "two-members", members: 2, mcs: vec![1, 2, 3], acs: vec![0, 1], accesses: lv(&[0, 1, 3]), triples: true },
+            Domain { name: "two-members", members: 2, mcs: vec![1, 2, 3], acs: vec![0, 1], accesses: lv(&[0, 1, 2, 3]), triples: true },
             Domain { name: "two-members-pairs", members: 2, mcs: vec![0, 1, 2, 3], acs: vec![0, 1, 2], accesses: lv(&[0, 1, 2, 3]), triples: false },
         ],
         (true, true) => vec![
             Domain { name: "one-member", members: 1, mcs: vec![0, 1, 2, 3], acs: vec![0, 1, 2], accesses: with_conds(&[0, 1, 2, 3], &[0, 1, 2, 3]), triples: true },
-            Domain { name: "two-members", members: 2, mcs: vec![1, 2], acs: vec![0, 1], accesses: vec![(1, 0), (1, 1), (1, 2), (2, 1), (2, 0)], triples: true },
+            Domain { name: "two-members", members: 2, mcs: vec![1, 2], acs: vec![0, 1], accesses: vec![(1, 0), (1, 1), (1, 2), (2, 1), (2, 0), (3, 3)], triples: true },
             Domain { name: "two-members-pairs", members: 2, mcs: vec![0, 1, 2], acs: vec![0, 1], accesses: with_conds(&[0, 1, 2, 3], &[0, 1, 2]), triples: false },
         ],
     }
